@@ -813,6 +813,9 @@ def main(pid, tier, seed, replay=None):
         scs.append({"tid": len(scs) + 1, "open_locked": True})
         plan.append({"family": "make_store() in a second process while another connection holds the database exclusively beyond the "
                                "busy timeout", "behaviours": 1})
+    cli_only = bool(replay) and "cli_scenario" in scs[0]
+    if cli_only:        # a replay of a command-line observation: that stage is run again (its scenarios are seeded, not stored)
+        scs = [{"tid": 1, "reldir": "A"}]
     records = run_behaviours(scs)
     by_tid = {r["tid"]: r for r in records}
     sc_by_tid = {s["tid"]: s for s in scs}
@@ -834,6 +837,22 @@ def main(pid, tier, seed, replay=None):
                 run.violation(dict(signature(rec, clause), opened_while_locked=True), {k: sc[k] for k in sc if k != "tid"})
                 continue
             run.violation(signature(rec, clause), {"hist": sc["hist"], "big": sc.get("big", False)})
+    cli_obs = 0
+    if not replay or cli_only:
+        # the same two clauses seen through the command line: `monkeytype --limit n stub m[:prefix] --sample-count` uses at most
+        # min(n, d) traces, `list-modules` prints exactly the modules that have rows (spec MTCli, shared with C10's extended stage)
+        from . import replay_cli
+        crecs = replay_cli.run_scenarios(20 if q else 300, seed)
+        cverd, cstates, ctrans, cwall = tlc.validate_shards("MTCli", "MTInferTrace.cfg", crecs, min_per_shard=100)
+        cby = {r["tid"]: r for r in crecs}
+        for v in cverd:
+            for clause in v.get("viol", []):
+                if clause in ("LimitRespected", "ModulesListed"):
+                    r = cby[v["tid"]]
+                    run.violation({"clause": "CLI:" + clause, "limit": r["limit"], "noprefix": r["noprefix"]},
+                                  {"cli_scenario": {k2: r[k2] for k2 in ("cmd", "m", "prefix", "limit", "rows")}})
+        states, trans, cli_obs = states + cstates, trans + ctrans, len(crecs)
+        plan.append({"family": "through the command line: --limit n (0, 1, 2, 3, 2000) x prefixes, list-modules (spec MTCli)", "behaviours": cli_obs})
     kinds = lambda r: {e["ev"] for e in r["events"]}  # noqa: E731
     nt = {json.dumps(sc_by_tid[r["tid"]].get("hist", sc_by_tid[r["tid"]]), sort_keys=True) for r in records
           if {"AddStart", "Filter"} <= kinds(r) or "Crash" in kinds(r)}
